@@ -254,6 +254,9 @@ class BaseAnalysis(NodeHandler):
     def ExprList(self, node: pr.ExprList, *args, **kwargs):
         self._iter_attr(node, 'exprs', *args, **kwargs)
 
+    def Label(self, node: pr.Label, *args, **kwargs):
+        self._recurse_attr(node, 'stmt', *args, **kwargs)
+
     def ParamList(self, node: pr.ParamList, *args, **kwargs):
         self._iter_attr(node, 'params', *args, **kwargs)
 
